@@ -166,6 +166,7 @@ func (c *IAMCache) GetUserAccount(access string) (Account, error) {
 		return Account{}, err
 	}
 
+	verifMissFetched(access)
 	c.iamcache.set(access, a)
 	return a, nil
 }
